@@ -343,6 +343,9 @@ class Program:
                 os.rename(pk + ".tmp%d" % os.getpid(), pk)
             except Exception:
                 pass
+        from . import anchors as A
+        self.aliases = A.canonicalise(units)      # renamed functions get their reference names back (see anchors.py)
+        A.APPLIED[:] = sorted(set(A.APPLIED) | set(self.aliases))
         self.units = units
         self.all_metas = metas
         self._index()
